@@ -860,40 +860,7 @@ def run(prog: Program, res: Result) -> None:
 
     # ---------------------------------------------------------------- R7b: a list handed to a token is not reused
     res.rule("C17.R7b", "a scanner list handed to a token (expression=self.expression, statements=self.line_statements, whitespace=self.line_space) is replaced by a fresh list on every path from that emission to the end of the state function: otherwise the next markup's token starts with the previous markup's expression tokens, which lie outside its span")
-    n_hand = 0
-    for fi in prog.all_functions():
-        if fi.module is not mod or fi.cls is not lexer:
-            continue
-        hands = []
-        for c in ast.walk(fi.node):
-            if isinstance(c, ast.Call) and (dotted(c.func) or "").endswith("Token"):
-                for k in c.keywords:
-                    if k.arg in ("expression", "statements", "whitespace") and isinstance(k.value, ast.Attribute) and isinstance(k.value.value, ast.Name) and k.value.value.id == "self":
-                        hands.append((c, k.value.attr))
-        if not hands:
-            continue
-        fcfg = lm.cfg(fi.name) if fi.name in lm.methods else CFG(fi.node)
-        for c, attr in hands:
-            n_hand += 1
-            node = next((n for n in fcfg.nodes if n.node is not None and n.kind in ("stmt", "test") and any(x is c for x in ast.walk(n.node))), None)
-            site = f"{rel}:{c.lineno} {fi.qualname}"
-            what = f"{fi.qualname}: self.{attr} is rebound to a fresh list after it was handed to `{norm(c.func)}`"
-
-            def _rebinds(n, attr=attr):  # noqa: ANN001, ANN202
-                nd = getattr(n, "node", None)
-                return getattr(n, "kind", "") == "stmt" and isinstance(nd, ast.Assign) and any(_is_self_attr(t, attr) for t in nd.targets) and isinstance(nd.value, ast.List) and not nd.value.elts
-
-            if node is None:
-                continue
-            # every path from the emission to a normal exit passes a rebinding
-            reach_wo = fcfg.reachable(node, avoid=lambda n: n is not node and _rebinds(n))
-            exits = [n for n in fcfg.nodes if n.kind == "stmt" and isinstance(n.node, ast.Return)] + [src for src, lab in fcfg.exit.pred if lab != "exc"]
-            leak = [e for e in exits if e.id in reach_wo and not _rebinds(e) and e is not node]
-            if not leak:
-                res.ok("C17.R7b", site, what, "fresh list on every path to the function's exits")
-            else:
-                res.fail("C17.R7b", file=rel, line=c.lineno, qualname=fi.qualname, construct=f"{fi.qualname}: self.{attr} handed to {norm(c.func)} and kept", message=f"{fi.qualname} hands self.{attr} to `{norm(c.func)}` and can return (line {leak[0].line}) without rebinding it to a fresh list: the tokens of this markup are also the beginning of the next markup's list", what=what)
-    res.floor("C17.R7b", "scanner lists handed to tokens", n_hand, 6)
+    check_scratch_lists(prog, res, "C17.R7b", lm)
 
     # ---------------------------------------------------------------- R9: a range token spans its parentheses
     res.rule("C17.R9", "a range token spans from its opening to its closing parenthesis: RangeToken(start=<token tested to be LPAREN>.index, stop=<token tested to be RPAREN>.index + 1) - both delimiters are one character long")
@@ -926,6 +893,38 @@ def run(prog: Program, res: Result) -> None:
     res.rule("C17.R11", "an error's template name and its token belong together (the name picks the source that line and column are shown against): (a) wherever a node renders a block parsed from another template (`<item>.block….render[_async](…)` with <item> a block-stack entry or a stored macro), a handler names escaping errors after that item before Template.render_with_context can name them after the rendering template; (b) an inheritance error raised with a token passes template_name from the same object / template the token comes from; (c) a loop interrupt turned into a syntax error is reported with the interrupt's own token and template name")
     n_r11 = _error_naming_rule(prog, res)
     res.floor("C17.R11", "naming obligations (foreign renders, inheritance errors, interrupt conversions)", n_r11, 12)
+
+    # ---------------------------------------------------------------- R12: no position is computed for a token that has none
+    res.rule("C17.R12", "the end-of-input token carries no position (start = -1, empty source): every call of LiquidError._error_context - the one place an offset becomes line and column - lies behind a test that turns a missing token or a negative start away, in each caller alike (sibling agreement of detailed_message() and context()); otherwise the error reports line 1, column -1")
+    exc_mod = prog.mod("liquid2/exceptions.py")
+    n12 = 0
+    for fq, f in sorted(exc_mod.functions.items()):
+        for c in ast.walk(f.node):
+            if not (isinstance(c, ast.Call) and isinstance(c.func, ast.Attribute) and c.func.attr == "_error_context" and prog.enclosing_function(exc_mod, c) is f):
+                continue
+            n12 += 1
+            fcfg = CFG(f.node)
+            node = next((n for n in fcfg.nodes if n.node is not None and n.kind in ("stmt", "test") and any(x is c for x in ast.walk(n.node))), None)
+            site = f"{exc_mod.relpath}:{c.lineno} {fq}"
+            what = f"{fq}: _error_context() is reached only for a token with a position (start >= 0)"
+            guarded = False
+            for t in fcfg.nodes:
+                if t.kind != "test" or t.node is None or node is None:
+                    continue
+                txt = norm(t.node, 200)
+                if ".start < 0" not in txt and ".index < 0" not in txt and ".start >= 0" not in txt:
+                    continue
+                # the call is unreachable once this test is cut out: the test dominates it
+                if node.id not in fcfg.reachable(fcfg.entry, avoid=lambda x, t=t: x is t):
+                    bad = "false" if ".start >= 0" in txt else "true"
+                    via_bad = any(lab == bad and (m is node or node.id in fcfg.reachable(m, avoid=lambda x, t=t: x is t)) for m, lab in t.succ)
+                    if not via_bad:
+                        guarded = True
+            if guarded:
+                res.ok("C17.R12", site, what, "dominated by a test on the token's start")
+            else:
+                res.fail("C17.R12", file=exc_mod.relpath, line=c.lineno, qualname=fq, construct=f"{fq}: _error_context() reachable for a token without a position", message=f"{fq} computes line and column without turning away a token whose start is negative (the end-of-input sentinel: start -1, empty source): `{{% if a == %}}` reports line 1, column -1 and an empty line instead of no position", what=what)
+    res.floor("C17.R12", "callers of _error_context", n12, 2)
 
     progress_rule(prog, res, lexer, lm, state_fns)
 
@@ -1003,34 +1002,7 @@ def run(prog: Program, res: Result) -> None:
 
     # ---------------------------------------------------------------- R5: one notion of "line"
     res.rule("C17.R5", "line/column computations use one notion of line break: a function that splits with str.splitlines() does not also count or search for '\\n' (and vice versa), in liquid2/exceptions.py and liquid2/messages.py")
-    n_line_fns = 0
-    for mrel in ("liquid2/exceptions.py", "liquid2/messages.py"):
-        pm = prog.mod(mrel)
-        for fq, fn_ in pm.functions.items():
-            uses_split = [c for c in ast.walk(fn_.node) if isinstance(c, ast.Call) and isinstance(c.func, ast.Attribute) and c.func.attr == "splitlines"]
-            uses_nl = [c for c in ast.walk(fn_.node) if isinstance(c, ast.Call) and isinstance(c.func, ast.Attribute) and c.func.attr in ("count", "find", "rfind", "index", "rindex", "split", "rsplit", "partition", "rpartition") and c.args and isinstance(c.args[0], ast.Constant) and c.args[0].value in ("\n", "\r\n")]
-            if not uses_split and not uses_nl:
-                continue
-            n_line_fns += 1
-            site = f"{mrel}:{fn_.node.lineno} {fq}"
-            what = f"{fq}: one line-break model"
-            if uses_split and uses_nl:
-                res.fail("C17.R5", file=mrel, line=uses_nl[0].lineno, qualname=fq, construct=f"{fq} mixes splitlines() with `{norm(uses_nl[0], 40)}`", message=f"{fq} finds lines with str.splitlines() (which also breaks at \\r, \\x0b, \\x0c, \\x1c-\\x1e, \\x85, \\u2028, \\u2029) and positions with `{norm(uses_nl[0], 40)}`: for a source containing one of those characters the reported line/column and the displayed line disagree", what=what)
-            elif uses_nl:
-                res.fail("C17.R5", file=mrel, line=uses_nl[0].lineno, qualname=fq, construct=f"{fq} counts '\\n' while its siblings use splitlines()", message=f"{fq} computes positions from '\\n' only, the other position functions use str.splitlines(): line numbers from the two disagree for sources with other line boundaries", what=what)
-            else:
-                res.ok("C17.R5", site, what, "splitlines() only")
-            # offsets accumulated over the lines need the terminators (one or two characters long): keepends=True, nothing added per line
-            accum = [a for a in ast.walk(fn_.node) if isinstance(a, ast.AugAssign) and isinstance(a.op, ast.Add) and any(isinstance(c, ast.Call) and isinstance(c.func, ast.Name) and c.func.id == "len" for c in ast.walk(a.value))]
-            if uses_split and accum:
-                what2 = f"{fq}: character offsets summed over splitlines(keepends=True) pieces only"
-                keep = all(any(k.arg == "keepends" and isinstance(k.value, ast.Constant) and k.value.value is True for k in c.keywords) or (c.args and isinstance(c.args[0], ast.Constant) and c.args[0].value is True) for c in uses_split)
-                plain = all(isinstance(a.value, ast.Call) for a in accum)
-                if keep and plain:
-                    res.ok("C17.R5", site, what2, "keepends=True and `+= len(line)`")
-                else:
-                    res.fail("C17.R5", file=mrel, line=accum[0].lineno, qualname=fq, construct=f"{fq} sums line lengths {'without keepends=True' if not keep else 'plus a constant'}", message=f"{fq} turns a character offset into line/column by summing the lengths of str.splitlines() pieces {'that have lost their terminators' if not keep else 'plus a fixed amount per line'}: a terminator is one or two characters ('\\r\\n'), so for CRLF sources every preceding line shifts the reported column and the position no longer refers to the token", what=what2)
-    res.floor("C17.R5", "line/column functions", n_line_fns, 3)
+    check_line_model(prog, res, "C17.R5")
 
     # ---------------------------------------------------------------- R4: who may build tokens
     res.rule("C17.R4", "tokens are built by the lexer only; a token built anywhere else either carries no position (index/start = -1, the shared end-of-input token) or copies .start/.index from an existing token - never a .stop or a computed offset, which can lie one past the last character")
@@ -1538,6 +1510,94 @@ def check_path_tokens(prog: Program, res: Result, rule: str) -> None:
                 res.fail(rule, file=rel, line=n.line, qualname="Lexer.accept_path", construct=f"{norm(n.node)} after the resync", message=f"`{norm(n.node)}` runs after the closing bracket was skipped (scan pointers synced): the nested variable's span includes the `]` of the enclosing path", what=what)
     res.floor(rule, "nested path stop assignments", n_nested, 1)
 
+
+
+
+def check_scratch_lists(prog: Program, res: Result, rule: str, lm=None) -> None:  # noqa: ANN001
+    """A scanner list handed to a token, or whose elements are copied into one (the marker list `self.wc`), is fresh again (rebound to
+    `[]` or cleared) on every path from that emission to the end of the state function (C17.R7b = C18.R9)."""
+    mod = prog.mod("liquid2/lexer.py")
+    lexer = mod.classes.get("Lexer")
+    rel = mod.relpath
+    if lexer is None:
+        raise AnalysisError("Lexer class vanished")
+    if lm is None:
+        lm = LexerModel(prog, lexer)
+    n_hand = 0
+    for fi in prog.all_functions():
+        if fi.module is not mod or fi.cls is not lexer:
+            continue
+        hands = []
+        for c in ast.walk(fi.node):
+            if isinstance(c, ast.Call) and (dotted(c.func) or "").endswith("Token"):
+                for k in c.keywords:
+                    if k.arg in ("expression", "statements", "whitespace") and isinstance(k.value, ast.Attribute) and isinstance(k.value.value, ast.Name) and k.value.value.id == "self":
+                        hands.append((c, k.value.attr))
+                    # a scratch list whose elements are copied into the token (wc=(self.wc[0], self.wc[1])): what is left in it is read by the next token
+                    elif k.arg == "wc":
+                        for x in ast.walk(k.value):
+                            if isinstance(x, ast.Subscript) and isinstance(x.value, ast.Attribute) and isinstance(x.value.value, ast.Name) and x.value.value.id == "self" and x.value.attr.islower() and (c, x.value.attr) not in hands:
+                                hands.append((c, x.value.attr))
+        if not hands:
+            continue
+        fcfg = lm.cfg(fi.name) if fi.name in lm.methods else CFG(fi.node)
+        for c, attr in hands:
+            n_hand += 1
+            node = next((n for n in fcfg.nodes if n.node is not None and n.kind in ("stmt", "test") and any(x is c for x in ast.walk(n.node))), None)
+            site = f"{rel}:{c.lineno} {fi.qualname}"
+            what = f"{fi.qualname}: self.{attr} is rebound to a fresh list after it was handed to `{norm(c.func)}`"
+
+            def _rebinds(n, attr=attr):  # noqa: ANN001, ANN202
+                nd = getattr(n, "node", None)
+                if getattr(n, "kind", "") != "stmt":
+                    return False
+                if isinstance(nd, ast.Assign) and any(_is_self_attr(t, attr) for t in nd.targets) and isinstance(nd.value, ast.List) and not nd.value.elts:
+                    return True
+                return isinstance(nd, ast.Expr) and isinstance(nd.value, ast.Call) and isinstance(nd.value.func, ast.Attribute) and nd.value.func.attr == "clear" and _is_self_attr(nd.value.func.value, attr)
+
+            if node is None:
+                continue
+            # every path from the emission to a normal exit passes a rebinding
+            reach_wo = fcfg.reachable(node, avoid=lambda n: n is not node and _rebinds(n))
+            exits = [n for n in fcfg.nodes if n.kind == "stmt" and isinstance(n.node, ast.Return)] + [src for src, lab in fcfg.exit.pred if lab != "exc"]
+            leak = [e for e in exits if e.id in reach_wo and not _rebinds(e) and e is not node]
+            if not leak:
+                res.ok(rule, site, what, "fresh list on every path to the function's exits")
+            else:
+                res.fail(rule, file=rel, line=c.lineno, qualname=fi.qualname, construct=f"{fi.qualname}: self.{attr} handed to {norm(c.func)} and kept", message=f"{fi.qualname} hands self.{attr} to `{norm(c.func)}` and can return (line {leak[0].line}) without rebinding it to a fresh list: the tokens of this markup are also the beginning of the next markup's list", what=what)
+    res.floor(rule, "scanner lists handed to tokens", n_hand, 6)
+
+def check_line_model(prog: Program, res: Result, rule: str) -> None:
+    """One notion of line break in the offset -> line/column functions of exceptions.py and messages.py, and offsets summed over
+    `splitlines(keepends=True)` pieces only (C17.R5 = C15.R10)."""
+    n_line_fns = 0
+    for mrel in ("liquid2/exceptions.py", "liquid2/messages.py"):
+        pm = prog.mod(mrel)
+        for fq, fn_ in pm.functions.items():
+            uses_split = [c for c in ast.walk(fn_.node) if isinstance(c, ast.Call) and isinstance(c.func, ast.Attribute) and c.func.attr == "splitlines"]
+            uses_nl = [c for c in ast.walk(fn_.node) if isinstance(c, ast.Call) and isinstance(c.func, ast.Attribute) and c.func.attr in ("count", "find", "rfind", "index", "rindex", "split", "rsplit", "partition", "rpartition") and c.args and isinstance(c.args[0], ast.Constant) and c.args[0].value in ("\n", "\r\n")]
+            if not uses_split and not uses_nl:
+                continue
+            n_line_fns += 1
+            site = f"{mrel}:{fn_.node.lineno} {fq}"
+            what = f"{fq}: one line-break model"
+            if uses_split and uses_nl:
+                res.fail(rule, file=mrel, line=uses_nl[0].lineno, qualname=fq, construct=f"{fq} mixes splitlines() with `{norm(uses_nl[0], 40)}`", message=f"{fq} finds lines with str.splitlines() (which also breaks at \\r, \\x0b, \\x0c, \\x1c-\\x1e, \\x85, \\u2028, \\u2029) and positions with `{norm(uses_nl[0], 40)}`: for a source containing one of those characters the reported line/column and the displayed line disagree", what=what)
+            elif uses_nl:
+                res.fail(rule, file=mrel, line=uses_nl[0].lineno, qualname=fq, construct=f"{fq} counts '\\n' while its siblings use splitlines()", message=f"{fq} computes positions from '\\n' only, the other position functions use str.splitlines(): line numbers from the two disagree for sources with other line boundaries", what=what)
+            else:
+                res.ok(rule, site, what, "splitlines() only")
+            # offsets accumulated over the lines need the terminators (one or two characters long): keepends=True, nothing added per line
+            accum = [a for a in ast.walk(fn_.node) if isinstance(a, ast.AugAssign) and isinstance(a.op, ast.Add) and any(isinstance(c, ast.Call) and isinstance(c.func, ast.Name) and c.func.id == "len" for c in ast.walk(a.value))]
+            if uses_split and accum:
+                what2 = f"{fq}: character offsets summed over splitlines(keepends=True) pieces only"
+                keep = all(any(k.arg == "keepends" and isinstance(k.value, ast.Constant) and k.value.value is True for k in c.keywords) or (c.args and isinstance(c.args[0], ast.Constant) and c.args[0].value is True) for c in uses_split)
+                plain = all(isinstance(a.value, ast.Call) for a in accum)
+                if keep and plain:
+                    res.ok(rule, site, what2, "keepends=True and `+= len(line)`")
+                else:
+                    res.fail(rule, file=mrel, line=accum[0].lineno, qualname=fq, construct=f"{fq} sums line lengths {'without keepends=True' if not keep else 'plus a constant'}", message=f"{fq} turns a character offset into line/column by summing the lengths of str.splitlines() pieces {'that have lost their terminators' if not keep else 'plus a fixed amount per line'}: a terminator is one or two characters ('\\r\\n'), so for CRLF sources every preceding line shifts the reported column and the position no longer refers to the token", what=what2)
+    res.floor(rule, "line/column functions", n_line_fns, 3)
 
 def check_line_searches(prog: Program, res: Result, rule: str) -> None:
     """The three offset -> line searches of liquid2 agree (C17.R8 = C15.R8)."""
